@@ -60,6 +60,12 @@ def body(c):
         for cm in (0, ["zlib", 3], ["gzip", 3], ["bz2", 3], ["xz", 3]):
             for pr in ((0, 2, 4, 5) if cm == 0 else (protos[(k2 + len(str(cm))) % len(protos)],)):
                 cases.append({"k": "size", "expr": expr, "compress": cm, "protocol": pr, "embedded": 1 + k2 % 2})
+    # (at the end of every worker's list: the process has loaded many files by then)
+    ncust = 0
+    for expr in ("[1, 'two', (3.0, None)]", "'a' * 70000", "None"):
+        for nm in ("vz", "verifzlong"):
+            for rep in range(5):
+                cases.append({"k": "custom", "expr": expr, "name": nm, "protocol": protos[ncust % len(protos)]}); ncust += 1
     base = common.scratch("c03")
     nw = 14
     jobs = [(base, k, cases[k::nw]) for k in range(nw)]
@@ -71,6 +77,7 @@ def body(c):
             c.evaluations += 1
             if case["k"] == "cfg": key = {"k": "cfg", "arg": case["cfg"]["arg"], "target": case["cfg"]["target"], "ext": case["cfg"]["ext"], "protocol": case["protocol"]}
             elif case["k"] == "graph": key = {"k": "graph", "graph": case["graph"]["kids"], "kinds": case["kinds"], "compress": case["compress"], "protocol": case["protocol"], "target": case["target"]}
+            elif case["k"] == "custom": key = {"k": "custom", "expr": case["expr"], "name": case["name"], "protocol": case["protocol"]}
             else: key = {"k": "size", "expr": case["expr"], "compress": case["compress"], "protocol": case["protocol"], "embedded": case.get("embedded")}
             c.nontrivial.add(json.dumps(key, sort_keys=True))
             for pb in r["problems"]:
